@@ -209,6 +209,7 @@ def t_calc_ops(facts, res, tier):
     from astlib import plain_arith, local_closures
     m, arms = rule_arms(inf)
     helpers = local_closures(inf["body"])
+    checked_division = any(x.get("k") == "mcall" and x["method"] in ("checked_div", "checked_rem") for x in walk(arms.get("div", {})))
     arms = {k: plain_arith(v, helpers) for k, v in arms.items()}
     for op, accepted in sorted(CALC_INFIX.items()):
         key = "T-CALC-OPS:infix:%s" % op
@@ -220,7 +221,8 @@ def t_calc_ops(facts, res, tier):
         res.inst(key, True, {"op": op, "computes": t, "guards": guards})
         if t is None or t not in accepted:
             res.fail(key, facts.where(fn, arms[op]), "calculator arm for `%s` computes `%s`; expected %s" % (op, t, " or ".join(sorted(accepted))))
-        if op == "div" and not any(g.replace("(", "").replace(")", "") in ("R==0", "0==R") for g in guards):
+        # a checked division answers None for a zero divisor (turned into an error with the overflow case): no separate test needed
+        if op == "div" and not checked_division and not any(g.replace("(", "").replace(")", "") in ("R==0", "0==R") for g in guards):
             res.fail(key + ":zero-guard", facts.where(fn, arms[op]), "division in the calculator is not guarded by a zero test that returns an error")
     m2, parms = rule_arms(pre)
     parms = {k: plain_arith(v, local_closures(pre["body"])) for k, v in parms.items()}
